@@ -29,4 +29,11 @@ def jobs(tier):
     for j in _other("C01").jobs(tier):
         if j.name == "a.fixed_header":
             j.name = "message_size.fixed_header"; j.group = "C13.message_size"; J.append(j)
+    J.append(Job(name="connection.complete", group="C13.connections", harness="harness/C09_pending.c", defines={"P": 0, "OP": 9}, real=["dbus/dbus-list.c"],
+                 env=["assert_stubs.c", "mem.c", "pool_lock.c", "msg_model.c", "msg_build.c"], checks="assert", unwind=7, unwindset=["strcmp.0:48"], timeout=300,
+                 encodes=["bus_connections_check_limits", "bus_connection_complete", "adjust_connections_for_uid", "get_connections_for_uid", "cache_peer_loginfo_string", "bus_connections_expire_incomplete"],
+                 stubs=["per-user table = one ghost counter", "string / policy / table operations = outcome stubs, the k-th one fails (k symbolic 0..8)", "limits symbolic 1..1000"],
+                 assumes=["inductive hypothesis: counts within limits before the step"],
+                 bounds="one Hello completing one incomplete connection; completed count, per-user count and both limits symbolic up to 1000; any single failing step",
+                 shape="connection completion step"))
     return J
